@@ -192,6 +192,33 @@ nested_types! {
     "CoseEd25519" => cosey::Ed25519PublicKey,
 }
 
+/// The documented lossy text members of a decoded request: (member, decoded value if present).
+/// None if the message is not accepted or carries no such entity. Err on panic.
+pub fn lossy_members(bytes: &[u8]) -> Result<Option<Vec<(&'static str, Option<Vec<u8>>)>>, String> {
+    guard(|| {
+        let req = ctap2::Request::deserialize(bytes).ok()?;
+        let mut out = Vec::new();
+        let mut user = |u: &wa::PublicKeyCredentialUserEntity, out: &mut Vec<(&'static str, Option<Vec<u8>>)>| {
+            out.push(("user.name", u.name.as_ref().map(|s| s.as_bytes().to_vec())));
+            out.push(("user.displayName", u.display_name.as_ref().map(|s| s.as_bytes().to_vec())));
+            out.push(("user.icon", u.icon.as_ref().map(|s| s.as_bytes().to_vec())));
+        };
+        match &req {
+            ctap2::Request::MakeCredential(m) => {
+                out.push(("rp.name", m.rp.name.as_ref().map(|s| s.as_bytes().to_vec())));
+                user(&m.user, &mut out);
+            }
+            ctap2::Request::CredentialManagement(c) => {
+                if let Some(u) = c.sub_command_params.as_ref().and_then(|p| p.user.as_ref()) {
+                    user(u, &mut out);
+                }
+            }
+            _ => {}
+        }
+        Some(out)
+    })
+}
+
 pub fn hash_bytes(b: &[u8]) -> u64 {
     fnv(b)
 }
